@@ -192,6 +192,31 @@ def _native_lagrange(vk):
                 vk.bounded_standin(f"lagrange.{nm}: jax stress and state update == tensortrax (native float, relative)", "4 random F at the virgin state, tolerance 1e-4 (jax eigenvalue perturbation 1e-4)", 4, worst < 1e-4, f"max relative deviation {worst:.2e}")
             except Exception as e:  # pragma: no cover
                 vk.bounded_standin(f"lagrange.{nm}: native comparison failed", "-", 0, False, f"{type(e).__name__}: {str(e)[:120]}")
+        # histories (state variables carried from step to step): coaxial load - unload - reload (Mullins history
+        # variable, additional stresses), and a non-coaxial step (uniaxial stretch followed by simple shear)
+        try:
+            sv0 = np.zeros((13, 1, 1))
+            sv0[[1, 4, 6]] = 1.0
+            ut = mt.Material(TL.morph, nstatevars=13, p=pm)
+            uj = mj.Material(JL.morph, nstatevars=13, p=pm)
+            uni = lambda lam: np.diag([lam, lam**-0.5, lam**-0.5]).reshape(3, 3, 1, 1)
+            worst, st, sj = 0.0, sv0, sv0
+            path = (1.3, 1.8, 1.5, 1.2, 1.4, 2.0, 1.1)
+            for lam in path:
+                Pt, st = ut.gradient([uni(lam), st])
+                Pj, sj = uj.gradient([uni(lam), np.asarray(sj)])
+                worst = max(worst, float(np.abs(np.asarray(Pj) - Pt).max() / np.abs(Pt).max()), float(np.abs(np.asarray(sj) - st).max() / max(1.0, np.abs(st).max())))
+            vk.bounded_standin("lagrange.morph: jax == tensortrax along a coaxial load-unload-reload history, each backend carrying its own state (stress and state, native float, relative)", f"uniaxial stretches {path}, tolerance 2e-2 (jax eigenvalue perturbation 1e-4 enters the rate term)", len(path), worst < 2e-2, f"max relative deviation {worst:.2e}")
+            worst = 0.0
+            for lam, gam in ((1.5, 0.4), (1.2, -0.3)):
+                F1 = uni(lam)
+                s1 = ut.gradient([F1, sv0])[1]
+                F2 = (np.array([[1.0, gam, 0.0], [0.0, 1.0, 0.0], [0.0, 0.0, 1.0]]) @ F1[..., 0, 0]).reshape(3, 3, 1, 1)
+                Pt, Pj = ut.gradient([F2, s1])[0], np.asarray(uj.gradient([F2, s1])[0])
+                worst = max(worst, float(np.abs(Pj - Pt).max() / np.abs(Pt).max()))
+            vk.bounded_standin("lagrange.morph: jax == tensortrax after a non-coaxial two-step history (stress, native float, relative)", "2 histories: uniaxial stretch then simple shear, same stored state handed to both, tolerance 2e-2", 2, worst < 2e-2, f"max relative deviation {worst:.2e}")
+        except Exception as e:  # pragma: no cover
+            vk.bounded_standin("lagrange.morph: native history comparison failed", "-", 0, False, f"{type(e).__name__}: {str(e)[:120]}")
     vk.note("not decided: agreement of the jax and tensortrax MORPH Lagrange models (bounded native stand-in only)")
 
 
@@ -361,6 +386,9 @@ def linear(vk, cfg):
         Aa, Ab, Ac = a.hessian([F, None])[0], b.hessian([F, None])[0], c.hessian([F, z])[0]
         vk.ensures_eq("elasticity/LinearElastic==TensorNotation", Aa, Ab)
         vk.ensures_eq("elasticity/LinearElastic==MaterialStrain(linear_elastic)", Aa, Ac)
+        # evaluated again with the same stored-state array (as every further Newton iteration of an increment does)
+        vk.ensures_eq("stress/LinearElastic==MaterialStrain(linear_elastic)/evaluated again with the same stored state", Pa, c.gradient([F, z])[0])
+        vk.frame_unchanged("MaterialStrain stored state", z, np.zeros((18, 1, 1)) if not vk.sym else ring.lift(np.zeros((18, 1, 1))))
         if vk.sym:
             vk.ensures_eq("elasticity==D(stress)", Aa, vk.D(Pa, F).reshape(Aa.shape))
             # Hooke's law in Lame form (the documented law): sigma = 2 mu eps + lmbda tr(eps) 1
